@@ -430,26 +430,4 @@ h!(r0_fmt_union_debug, 27, {
     let u = ArcUnion::<u16, P>::from_second(a);
     fmt_contract(addr, 0, modes_debug(&u));
 });
-/// Replaces `Formatter::debug_tuple_field1_finish` (what `#[derive(Debug)]` on a one-field tuple variant calls): core's
-/// pretty-printing adapter (line splitting over the payload's output) does not finish in CBMC; the stub keeps what matters
-/// here - the SAME formatter, flags included, reaches the field's own Debug impl.
-fn tuple1_stub<'a>(f: &mut core::fmt::Formatter<'a>, name: &str, value1: &dyn core::fmt::Debug) -> core::fmt::Result
-where
-    'a: 'a,
-{
-    f.write_str(name)?;
-    value1.fmt(f)
-}
-#[kani::proof]
-#[kani::unwind(27)]
-#[kani::stub(std::alloc::alloc, alloc_stub)]
-#[kani::stub(alloc::alloc::dealloc_nonnull, dealloc_stub)]
-#[kani::stub(core::fmt::Formatter::debug_tuple_field1_finish, tuple1_stub)]
-fn q_fmt_union_debug_alternate() {
-    // `{:#?}`: the pretty-printing request must reach the value's own Debug, also through the union's wrapper
-    crate::ghost::arm();
-    let a = Arc::new(P(1));
-    let addr = Arc::as_ptr(&a) as usize;
-    let u = ArcUnion::<P, u16>::from_first(a);
-    fmt_contract(addr, 1, modes_debug(&u));
-}
+
